@@ -1259,6 +1259,12 @@ func TestCheck(t *testing.T) {
 	r.Set("list_policies_total", len(lpols))
 	r.Set("domains", map[string]any{"schemes": len(dom.schemes), "hosts": len(hosts), "resolver_answers": len(dom.res), "userinfo": len(userinfos), "ports": len(ports),
 		"rule_sets": len(dom.rules), "redirect_statuses": dom.statuses, "redirect_target_forms": len(dom.redirForms), "odd_urls": len(oddURLs), "dispatcher_cases": len(dispatcherCases())})
+	r.Set("list_domains", map[string]any{"entries": listEntries, "sequences": "every sequence of 1..2 entries (quick: and of 3 over two sub-alphabets of 6; thorough: every sequence of 3) as deny list and as allow list, dns_rebind_protection off and on",
+		"cross": "allow x deny over every sequence of 1..2 entries of the cross alphabet", "cross_alphabet_quick": listCross, "cross_alphabet_thorough": listCrossThorough,
+		"forms": []string{"one directive per entry", "one multi-value directive", "{$VAR:default} placeholders"}, "hand_lists_for_forms": listHand})
+	r.Set("rule_parts", map[string]string{
+		"L": "rule lists: every list policy of list_domains compiled from Hookaidofile text; every host derived from every entry (apex, sub-domain, two-level sub-domain, suffix without dot boundary, prefix trap, parent, upper-case/trailing-dot spellings; first/last/below/above/base address of every network as literal, IPv4-mapped literal and as resolver answer alone and mixed) as direct delivery and as redirect target; judged by the reference on the entries as written",
+		"D": "dispatcher chains: policy x retry.max x first URL x chains of 0..2 redirects over the URL alphabet x earlier failed attempts 0..retry.max x redirect statuses through the real PushDispatcher + HTTPDeliverer + http.Client in a synctest bubble: no request to a forbidden URL; denied first URL or hop => dead policy_denied by that very attempt; plainly allowed chain => acked"})
 	r.Set("rule", "complete product scheme x host x (resolver answer, names only) x userinfo x port x https_only x redirects x dns_rebind_protection x allow x deny through "+
 		"HTTPDeliverer.Deliver with a table resolver and a recording RoundTripper; redirect chains of 1 and 2 hops from a reference-allowed first URL into every URL class "+
 		"(all policies for 1 hop, so 'redirects off' is covered; redirects-on policies for 2 hops); policies are compiled from Hookaidofile text by the production "+
@@ -1270,6 +1276,8 @@ func TestCheck(t *testing.T) {
 	r.Assume("host canonicalisation: ASCII case-insensitive, one trailing dot ignored, IP literal = dotted quad or RFC 4291 text; decimal/hex/octal/short IPv4 notations are names and resolve only through the table (what the OS resolver would make of them is not modelled)")
 	r.Assume("allowed probes are asserted only for plainly spelled URLs (lower-case http/https, no userinfo, canonical host) with only public addresses; stricter behaviour on other spellings or on unlisted special-purpose ranges (documentation, CGNAT, broadcast) is not judged")
 	r.Assume("error kind for a denied redirect hop is not asserted (the statement only requires that the hop is not contacted); URLs the Go URL parser refuses or that carry no authority are only required to send nothing and fail")
+	r.Assume("part L: a compile step may drop an entry that is truly redundant (the number of compiled rules is not compared for multi-entry lists); only the behaviour towards the derived hosts is judged")
+	r.Assume("part D: that an attempt answered 503 / failed in the transport is retried while attempt <= retry.max is C06's statement and a precondition here (cases where it does not hold are counted in disp_cases_unjudged and make the run non-exhaustive); retry.max 0 and a first URL with a non-http scheme cannot be written in a Hookaidofile, for them the compiled route is adjusted by hand (the policy always comes from the compiler); what becomes of an unfollowed 3xx answer (redirects off) is not judged; the resolver answer of a name does not change between the attempts of one message (C06 part e2 varies it)")
 	r.Assume("the RoundTripper is the observation point: a request is 'sent' when http.Client hands it to the transport; the host contacted is req.URL.Host")
 	r.Finish()
 }
